@@ -7,7 +7,7 @@ from checks import c11
 PROPERTY = "C12"
 LEVEL = "model_checking"
 RULE = ("on the state graph of C11 (every reachable abstract key state, rebuilt by replaying its witness history): for EVERY ciphertext attribute list A of the "
-        "alphabet (per slot absent / v1 / v2, plus 0 and r+v1 in the thorough tier) decrypt(encrypt(m,A),key) == m IFF A and the key's fixed pattern are equal as "
+        "alphabet (per slot absent / v1 / v2 / v1 given unreduced as r+v1 / v1 with omitFromKeys set - a flag encryption must ignore; plus 0, 2^256-1 and marked v2 in the thorough tier) decrypt(encrypt(m,A),key) == m IFF A and the key's fixed pattern are equal as "
         "maps slot -> non-zero value mod r; from EVERY state with a hidden slot i, EVERY list that illegally gives slot i a value is pushed through qualifykey, "
         "nondelegable_qualifykey and adjust_nondelegable and the resulting key must not decrypt any ciphertext in which slot i is set; each single-component "
         "ciphertext modification (a*e, b+G2, c+G1) must change the decryption result. state = (key state, A); non-trivial = A non-empty")
@@ -16,7 +16,8 @@ ASSUMPTIONS = ["a value that is 0 mod r contributes the neutral element, so 'abs
 
 
 def ct_lists(l, tier):
-    names = [None, "v1", "v2"] + (["0", "r+v1"] if tier == "thorough" else [])
+    # "r+v1" is v1 given unreduced; wk.MARK + "v1" is v1 with omitFromKeys set, which encryption must ignore
+    names = [None, "v1", "v2", "r+v1", wk.MARK + "v1"] + (["0", "max", wk.MARK + "v2"] if tier == "thorough" else [])
     out = []
     for combo in itertools.product(names, repeat=l):
         out.append([[i, c] for i, c in enumerate(combo) if c is not None])
@@ -26,7 +27,7 @@ def ct_lists(l, tier):
 def as_map(pairs, vals):
     m = {}
     for i, c in pairs:
-        v = (vals[c] if isinstance(c, str) else c) % ref.r
+        v = wk.entry_value(c, vals) % ref.r
         if v:
             m[i] = v
     return m
@@ -46,7 +47,7 @@ def eval_case(case):
     sub = case["sub"]
     if sub == "match":
         A = case["A"]
-        pairs = [(i, W.vals[c]) for i, c in A]
+        pairs = [(i, wk.entry_value(c, W.vals), wk.is_hidden(c)) for i, c in A]
         ct = W.encrypt(m, pairs)
         ok = W.decrypt(ct, key) == m
         should = as_map(A, W.vals) == key_map(pat)
@@ -85,7 +86,7 @@ def eval_case(case):
         for A in ct_lists(W.l, "quick"):
             if not any(j == i for j, _ in A):
                 continue
-            pairs = [(j, W.vals[c]) for j, c in A]
+            pairs = [(j, wk.entry_value(c, W.vals), wk.is_hidden(c)) for j, c in A]
             ct = W.encrypt(m, pairs)
             if W.decrypt(ct, new) == m:
                 msgs.append("a key derived from %s through %s(%s) opens a ciphertext with hidden slot %d set (%s)" % (wk.pat_str(pat), via, Lill["e"], i, A))
@@ -130,7 +131,7 @@ def run_shard(ctx, shard):
         for i in hidden:
             for Lill in lists:
                 ents = {j: c for j, c in Lill["e"]}
-                if ents.get(i) in (None, wk.HID):
+                if ents.get(i) is None or wk.is_hidden(ents.get(i)):
                     continue
                 # legal everywhere except slot i
                 legal_elsewhere = wk.permitted(tuple(wk.FREE if j == i else s for j, s in enumerate(pat)), Lill, vals)
